@@ -2,7 +2,9 @@
 from solver import outcome_of, Solver, goal_kinds, real_calls, is_none, some_payload
 from callgraph import CallGraph
 import statics
-from sym import Walker, strip, show, mentions
+from sym import Walker, strip, show, mentions, unclone
+import folds
+import inline
 
 EXPLANATION = ("Structural necessary conditions of C10: the variable arm of recreate_variables gives a name already in the "
                "map the mapped id and a new name an id from next_id() that is inserted under that name and placed in the "
@@ -29,8 +31,10 @@ def run(ctx):
     ctx.fn(U)
     me = ("param", 1, U.locals[1].get("name") or "")
     mp = ("param", 2, U.locals[2].get("name") or "")
+    # private helpers are walked into; the renamer family, the id counter functions and the list builder stay calls
+    pol = inline.helpers(prog, keep=REN + ("next_id", "set_var_id", "get_var_id", "clear_id", "make_linked_list"))
     # ---- R1 / R4 on the term renamer --------------------------------------
-    w = Walker(U, max_visits=2)
+    w = Walker(U, max_visits=2, inline=pol)
     seen_arms = set()
     for variant in ("Nil", "Anonymous", "Atom", "SFloat", "SInteger", "LogicVar", "SComplex", "SFunction"):
         ps = w.paths({me: frozenset([variant])})
@@ -46,7 +50,7 @@ def run(ctx):
                     ok, why = False, "the variable arm returns %s" % show(r)[:80]
                     continue
                 f = dict(r[3])
-                idt, nm = strip(f["id"]), strip(f["name"])
+                idt, nm = unclone(f["id"]), unclone(f["name"])
                 if nm != ("field", me, "LogicVar.name"):
                     ok, why = False, "the new variable's name is %s" % show(nm)
                 gets = [e for e in p.calls() if e["callee"].endswith("::get") and strip(e["args"][0]) == mp]
@@ -57,7 +61,7 @@ def run(ctx):
                 out = [outcome_of(p, res)]
                 if out and out[0] == "Some":
                     hit = True
-                    if idt != ("field", res, "Some.0"):
+                    if idt != ("field", unclone(res), "Some.0"):
                         ok, why = False, "a name already in the map gets id %s, not the mapped id" % show(idt)
                     if any(e["callee"].endswith("next_id") for e in p.calls()):
                         ok, why = False, "a fresh id is drawn although the name is already mapped"
@@ -65,9 +69,9 @@ def run(ctx):
                     miss = True
                     nid = [e for e in p.calls() if e["callee"].endswith("logic_var::next_id")]
                     ins = [e for e in p.calls() if e["callee"].endswith("::insert") and strip(e["args"][0]) == mp]
-                    if len(nid) != 1 or idt != nid[0]["result"]:
+                    if len(nid) != 1 or idt != unclone(nid[0]["result"]):
                         ok, why = False, "a new name gets id %s, not one fresh next_id()" % show(idt)
-                    elif len(ins) != 1 or strip(ins[0]["args"][1]) != ("field", me, "LogicVar.name") or strip(ins[0]["args"][2]) != nid[0]["result"]:
+                    elif len(ins) != 1 or strip(ins[0]["args"][1]) != ("field", me, "LogicVar.name") or unclone(ins[0]["args"][2]) != unclone(nid[0]["result"]):
                         ok, why = False, "the fresh id is not recorded in the map under the variable's name"
                 else:
                     ok, why = False, "the lookup result is not examined"
@@ -76,6 +80,7 @@ def run(ctx):
             continue
         ok, why = True, ""
         n = 0
+        pushes_seen, delegated = 0, False
         for p in ps:
             if p.end != "return":
                 continue
@@ -87,17 +92,30 @@ def run(ctx):
             elif variant == "SComplex":
                 if not (r[0] == "agg" and r[2] == "SComplex"):
                     ok, why = False, "a complex term becomes %s" % show(r)[:80]
+                npush = 0
                 for e in p.calls():
                     if e["callee"].endswith("::push"):
+                        npush += 1
                         v = strip(e["args"][1])
                         if not (v[0] == "call" and v[1] == U.path and strip(v[2][1]) == mp):
                             ok, why = False, "a child %s is pushed that is not the renamed child (same map)" % show(v)[:60]
+                pl0 = strip(dict(r[3]).get("0")) if r[0] == "agg" and r[3] else None
+                if pl0 is not None and pl0[0] == "call" and pl0[1].split("::")[-1] in REN:
+                    # the children are renamed by the family's vector renamer: own children, same map
+                    if strip(pl0[2][0]) != ("field", me, "SComplex.0") or strip(pl0[2][1]) != mp:
+                        ok, why = False, "the children become %s" % show(pl0)[:80]
+                    delegated = True
+                elif pl0 is not None and pl0 == ("field", me, "SComplex.0"):
+                    ok, why = False, "the children are kept as they are: variables inside a complex term are not renamed"
+                pushes_seen = max(pushes_seen, npush)
                 if mentions(r, lambda t: t[0] == "call" and any(t[1].endswith(x) for x in ("::rev", "::skip", "::sort"))):
                     ok, why = False, "children are reordered"
             elif variant == "SFunction":
                 if not (r[0] == "agg" and r[2] == "SFunction" and strip(dict(r[3])["name"]) == ("field", me, "SFunction.name")):
                     ok, why = False, "a function term becomes %s" % show(r)[:80]
         seen_arms.add(variant)
+        if variant == "SComplex" and ok and not delegated and pushes_seen == 0:
+            ok, why = False, "no path renames a child of a complex term (neither a loop pushing renamed children nor the vector renamer)"
         ctx.ob("R4", "term(%s)" % variant, ok and n > 0, ctx.where(U), why or "rebuilt unchanged apart from renamed children")
     # goal / operator / built-in renamers keep the variant and the functor
     for path, kinds in (("goal::Goal::recreate_variables", ("OperatorGoal", "ComplexGoal", "BuiltInGoal")),
@@ -109,7 +127,7 @@ def run(ctx):
         ctx.fn(F)
         fme = ("param", 1, F.locals[1].get("name") or "")
         fmp = ("param", 2, F.locals[2].get("name") or "")
-        fw = Walker(F, max_visits=2)
+        fw = Walker(F, max_visits=2, inline=pol)
         for k in kinds:
             ok, why, n = True, "", 0
             for p in fw.paths({fme: frozenset([k])}):
@@ -133,7 +151,7 @@ def run(ctx):
         bme = ("param", 1, BP.locals[1].get("name") or "")
         bmp = ("param", 2, BP.locals[2].get("name") or "")
         ok, why, n = True, "", 0
-        for p in Walker(BP, max_visits=2).paths():
+        for p in Walker(BP, max_visits=2, inline=pol).paths():
             if p.end != "return":
                 continue
             n += 1
@@ -143,8 +161,8 @@ def run(ctx):
                 continue
             t = r[2][1]
             pl = some_payload(t)
-            tv = [v for c, v, bb in p.decisions if c == ("variant", ("field", bme, "terms"))]
-            if tv and tv[0] == "Some":
+            tv = p.refine.get(("field", bme, "terms"))
+            if tv is not None and set(tv) == {"Some"}:
                 q = strip(pl) if pl is not None else None
                 if q is None or not (q[0] == "call" and q[1].split("::")[-1] in REN and strip(q[2][1]) == bmp and
                                      strip(q[2][0]) == ("field", ("field", bme, "terms"), "Some.0")):
@@ -161,7 +179,7 @@ def run(ctx):
         rme = ("param", 1, RR.locals[1].get("name") or "")
         rmp = ("param", 2, RR.locals[2].get("name") or "")
         ok, why, n = True, "", 0
-        for p in Walker(RR, max_visits=2).paths():
+        for p in Walker(RR, max_visits=2, inline=pol).paths():
             if p.end != "return":
                 continue
             n += 1
@@ -194,17 +212,21 @@ def run(ctx):
             continue
         ctx.fn(F)
         fmp = ("param", 2, F.locals[2].get("name") or "")
+        fco = ("param", 1, F.locals[1].get("name") or "")
         ok, why, n = True, "", 0
-        for p in Walker(F, max_visits=2).paths():
-            for e in p.calls():
-                if e["callee"].split("::")[-1] in REN:
-                    n += 1
-                    if strip(e["args"][1]) != fmp:
-                        ok, why = False, "an element is renamed under %s, not the caller's map" % show(e["args"][1])
-                if e["callee"].endswith("::push"):
-                    v = strip(e["args"][1])
-                    if not (v[0] == "call" and v[1].split("::")[-1] in REN):
-                        ok, why = False, "an element %s is pushed unrenamed" % show(v)[:60]
+        em = folds.element_map(prog, F, inline=pol)
+        if em["err"]:
+            ok, why = False, "the element-wise renaming is not recognised (%s)" % em["err"]
+        for v, is_elem in em["pairs"]:
+            n += 1
+            if not (v[0] == "call" and v[1].split("::")[-1] in REN and len(v[2]) == 2):
+                ok, why = False, "an element %s is produced unrenamed" % show(v)[:60]
+            elif strip(v[2][1]) != fmp:
+                ok, why = False, "an element is renamed under %s, not the caller's map" % show(v[2][1])
+            elif not is_elem(v[2][0]):
+                ok, why = False, "the renamed value %s is not the element at that position" % show(v[2][0])[:60]
+        if ok and em["colls"] != {fco}:
+            ok, why = False, "the elements come from %s, not from the vector passed in" % sorted(show(c) for c in em["colls"])
         ctx.ob("R2", path.split("::")[-1], ok and n > 0, ctx.where(F), why or "every element is renamed under the caller's map, in order")
     # every place where a renaming map enters the renamer family: the map must be created for that one use
     from cfg import BodyCfg
@@ -256,7 +278,7 @@ def run(ctx):
             continue
         defs = single_defs(b)
         for bi, t in b.calls():
-            nm = t["callee"].get("resolved") or t["callee"]["path"]
+            nm = t["callee"].get("resolved") or t["callee"].get("path") or ""
             tgt = next((x for x in prog.lib_bodies() if x.path == nm), None)
             if tgt is None:
                 continue
@@ -333,7 +355,7 @@ def run(ctx):
     callers = {"set_var_id": set(), "clear_id": set()}
     for p, b in cg.nodes.items():
         for bb, t in b.calls():
-            nm = t["callee"].get("resolved") or t["callee"]["path"]
+            nm = t["callee"].get("resolved") or t["callee"].get("path") or ""
             for k in callers:
                 if nm.endswith("logic_var::" + k):
                     callers[k].add(p)
@@ -344,7 +366,7 @@ def run(ctx):
     for cp in sorted(callers["set_var_id"] - {E.path}):
         b = cg.nodes[cp]
         for bb, t in b.calls():
-            nm = t["callee"].get("resolved") or t["callee"]["path"]
+            nm = t["callee"].get("resolved") or t["callee"].get("path") or ""
             if nm.endswith("logic_var::set_var_id"):
                 a = t["args"][0] if t["args"] else {}
                 if cp not in resetters or not (a.get("k") == "const" and a.get("int") == 0):
